@@ -25,6 +25,13 @@ use super::{
 const PARSE_AT_LEAST: usize = 3; // N in Corchuelo et al.
 const TRY_PARSE_AT_MOST: usize = 250;
 
+/// Read-only export of the recovery constants for the verification harness.
+#[cfg(grmtools_verif)]
+pub mod verif_hooks {
+    pub const PARSE_AT_LEAST: usize = super::PARSE_AT_LEAST;
+    pub const TRY_PARSE_AT_MOST: usize = super::TRY_PARSE_AT_MOST;
+}
+
 #[derive(Clone, Copy, Debug, Eq, Hash, PartialEq)]
 enum Repair<StorageT> {
     /// Insert a `Symbol::Token` with idx `token_idx`.
